@@ -4,7 +4,7 @@ Obligations
   theorems   Cppcheck.Props.C10 (Lean, unbounded): toBig_render / toBigU_render (every rendered literal of the grammar: all
              bases, any number of digits, any accepted suffix, optional sign, magnitude < 2^64 ⇒ exact value mod 2^64),
              toBig_rejects_overflow_partial (+ proved counterexample: binary literals wrap), isInt_iff_grammar, suffix_iff_spec,
-             charlit_value_partial (+ proved counterexample `'\\x0x4'`), truncate_eq_wrap/_signed/_unsigned, minmax_*,
+             charlit_value (full strength since bed3bd1; counterexample theorem about the pre-fix function), truncate_eq_wrap/_signed/_unsigned, minmax_*,
              const_unsigned_adjust, and the table theorems re-proved over the platform table generated on this run.
   T1         Platform::set (lib/platform.cpp) + platforms/*.xml + the element→field chain of loadFromXmlDocument
              → lean/Cppcheck/Gen/Platforms.lean (fail closed); the scalar chain of ValueType::getSizeOf and the
@@ -17,7 +17,7 @@ P_impl       (i) the real converters on the spelling of a structured literal giv
              (ii) truncateIntValue = two's complement wrap; (iii) the reported known value of a constant expression = value of
              the C abstract machine for the platform (python reference evaluator).  The thorough tier validates the SPEC side
              (Lean literal values, reference evaluator, reference data models) against clang-14 static_assert probes / target macros.
-Findings     known_findings.d/C10.json (F5, F10b, F10c, F10e, F10f; F10d fixed by a4b8285); witnesses in corpus/C10/cases.json
+Findings     known_findings.d/C10.json (F5, F10b, F10c; fixed: F10d a4b8285, F10e 731a3b3, F10f bed3bd1); witnesses in corpus/C10/cases.json
 """
 import os, re, json, glob, subprocess
 import xml.etree.ElementTree as ET
@@ -34,16 +34,17 @@ EXPLANATION = ("partial: the Lean theorems hold for every integer literal of the
                "every well-formed character literal, truncateIntValue for all values/sizes, and the whole platform table extracted on this run; "
                "tie = translator (tables decided whole on every run) + differential correspondence of every modelled function + CLI dump. "
                "NOT modelled, only sampled through the CLI against a reference evaluator: folding of constant expressions "
-               "(findings F5, F10b, F10c live there), literal TYPE selection (F10d, fixed), casts. Outside: floating literal VALUES "
+               "(findings F5, F10b, F10c live there), literal TYPE selection (F10d, fixed), casts; F10e/F10f are fixed and inside the model. Outside: floating literal VALUES "
                "(classification only), raw UTF-8 in charlit_value (correspondence only), multi-character constants wider than the platform's int, "
                "wide literals above the signed range of wchar_t.")
 THEOREMS = [
     "Cppcheck.C10.toBig_render", "Cppcheck.C10.toBigU_render", "Cppcheck.C10.toBig_rejects_overflow_partial",
     "Cppcheck.C10.toBig_rejects_overflow_counterexample", "Cppcheck.C10.toBig_bin_wraps",
     "Cppcheck.C10.isInt_iff_grammar", "Cppcheck.C10.suffix_iff_spec",
-    "Cppcheck.C10.charlit_value_partial", "Cppcheck.C10.charlit_value_counterexample",
+    "Cppcheck.C10.charlit_value", "Cppcheck.C10.charlit_value_before_fix_counterexample",
     "Cppcheck.C10.truncate_eq_wrap", "Cppcheck.C10.truncate_signed", "Cppcheck.C10.truncate_unsigned",
     "Cppcheck.C10.minmax_eq_range_partial", "Cppcheck.C10.minmax_counterexample", "Cppcheck.C10.const_unsigned_adjust",
+    "Cppcheck.C10.char_platform_sign", "Cppcheck.C10.const_signed_type",
     "Cppcheck.C10.sizeof_table", "Cppcheck.C10.sizeOf_eq_source", "Cppcheck.C10.bitsOf_eq_source",
     "Cppcheck.C10.platforms_sane", "Cppcheck.C10.platform_ranges_defined",
 ]
@@ -543,6 +544,9 @@ def inproc_ops(ctx, x, thorough):
         ops.append("chr " + lat1(s))
     for s in lits[:600]:
         ops.append("sfx " + lat1(s))
+    for s in chars + lits[:100]:
+        if s:
+            ops.append("cch " + lat1(s))
     for _ in range(1500 * n):
         ops.append(gen_trunc(rng))
     for bits in list(range(0, 70)) + [127, 128, 255]:
@@ -637,9 +641,7 @@ def wrap64(v):
 
 def classify_inproc(case):
     """known-finding classes of P_impl failures on structured literals"""
-    if case["kind"] == "clit" and case["spec"].get("q") == "1":
-        return "charlit-hex0x-prefix"
-    return None
+    return None      # F10f (`\\x0x4`) is fixed by bed3bd1: no class of structured literals is a known finding any more
 
 
 def pimpl_struct(ctx, res, drv, exe, specs, tag):
@@ -906,8 +908,11 @@ def classify_cli(P, e, reported):
                 return "fold-mixed-sign-left-signed"
     if e["kind"] == "K" and e.get("neg") and e["lty"][1] and reported == conv(P, e["ty"], -e["v"]):
         return "fold-unary-minus-unsigned"        # unary minus on an unsigned operand is not reduced to the operand's type
-    if e["kind"] == "C" and e.get("detail") == "char1:high" and P.char_unsigned and reported == e["expect"] - 256:
-        return "charlit-host-char-sign"           # narrow character literal valued with the host's signed char
+    if (e["kind"] == "C" and e.get("detail") == "char1:high" and P.char_unsigned and reported == e["expect"] - 256
+            and re.match(r"^'\\[1-7][0-7]*'$", e["src"])):
+        # F10g: replaceEscapeSequences folds only octal escapes starting with 0, Token::isCChar() is false for '\\200',
+        # so the platform-sign adjustment of 731a3b3 is not applied
+        return "charlit-octal-escape-not-cchar"
     return None
 
 
@@ -950,7 +955,7 @@ def run_cli_case(ctx, res, drv, P, cpp, exprs, tag):
             t = VT_SIZE[tok["valueType-type"]]
             uns = tok.get("valueType-sign") == "unsigned"
             bits = -1 if t == "wchar_t" else P.bits(t)
-            mops.append(("big " + lat1(tok["str"]), uns, P.size[t], bits))
+            mops.append(("big " + lat1(tok["str"]), uns, P.size[t], bits, "cch " + lat1(tok["str"])))
             mexp.append((e, rep))
         # (b) P_impl
         if rep is not None and e["expect"] is not None and rep != wrap64(e["expect"]):
@@ -958,10 +963,13 @@ def run_cli_case(ctx, res, drv, P, cpp, exprs, tag):
                              key=classify_cli(P, e, rep)))
     if mops:
         rc, o1, _ = core.run_lines(drv, [], [m[0] for m in mops])
+        rc, oc, _ = core.run_lines(drv, [], [m[4] for m in mops])      # Token::isCChar() of the token text (model, corresponded in-process)
         cops = []
-        for (op, uns, size, bits), o in zip(mops, o1):
+        for (op, uns, size, bits, _), o, occ in zip(mops, o1, oc):
+            cchar = occ.startswith("cchar=1")
             m = re.match(r"^B ok:(-?\d+) \|", o)
-            cops.append("const %s %d %d %d" % (m.group(1), 1 if uns else 0, size, bits) if m else "const x 0 0 0")
+            cops.append("const %s %d %s %d %d %d %d" % (m.group(1), 1 if cchar else 0, "u" if P.char_unsigned else "s", P.cb, 1 if uns else 0, size, bits)
+                        if m else "const x 0 - 8 0 0 0")
         rc, o2, _ = core.run_lines(drv, [], cops)
         bad = []
         for (e, rep), c, o in zip(mexp, cops, o2):
